@@ -111,6 +111,27 @@ func (r *phxRun) lookupRes(i int) (res map[string]interface{}) {
 }
 
 func (r *phxRun) push(v map[string]interface{}) {
+	r.pushAs("m", v, nil, nil)
+}
+
+// heldPush: a gossiped VAA naming a set the explorer does not know yet; the node holds the answer to its chain fetch
+// back while another lookup (of a newer index) fetches and appends beyond the named set; then the node answers.
+func (r *phxRun) heldPush(a map[string]interface{}) {
+	j := vhInt(a, "advance", 0)
+	r.chain.HoldNext(1)
+	r.pushAs("h", vhMap(a, "v"), func(finished func() bool) {
+		deadline := time.Now().Add(5 * time.Second)
+		for r.chain.Held() == 0 && !finished() && time.Now().Before(deadline) {
+			time.Sleep(50 * time.Microsecond)
+		}
+		r.trace.Emit(r.sc, "LookupCall", map[string]interface{}{"p": "m", "i": j}, nil)
+		res := r.lookupRes(j)
+		r.trace.Emit(r.sc, "LookupRet", map[string]interface{}{"p": "m", "i": j, "res": res}, nil)
+	}, r.chain.Release)
+}
+
+// pushAs runs one Push as process p.  meanwhile (optional) runs while the call is in flight, release right after it.
+func (r *phxRun) pushAs(p string, v map[string]interface{}, meanwhile func(finished func() bool), release func()) {
 	b, _ := r.build(v)
 	id := vhStr(v, "id")
 	pv, perr := vaa.Unmarshal(b)
@@ -122,16 +143,35 @@ func (r *phxRun) push(v map[string]interface{}) {
 		r.keyOf[id] = pv.MessageID()
 		r.seen = append(r.seen, id)
 	}
-	r.trace.Emit(r.sc, "PushCall", map[string]interface{}{"p": "m", "v": v}, nil)
+	r.trace.Emit(r.sc, "PushCall", map[string]interface{}{"p": p, "v": v}, nil)
 	before := len(r.queue)
 	var err error
 	var pan interface{}
-	func() {
+	call := func() {
 		defer func() { pan = recover() }()
 		ctx, cancel := context.WithTimeout(context.Background(), 5*time.Second)
 		defer cancel()
 		err = r.cons.Push(ctx, pv, b)
-	}()
+	}
+	if meanwhile == nil {
+		call()
+	} else {
+		done := make(chan struct{})
+		go func() {
+			call()
+			close(done)
+		}()
+		meanwhile(func() bool {
+			select {
+			case <-done:
+				return true
+			default:
+				return false
+			}
+		})
+		release()
+		<-done
+	}
 	out := "?"
 	switch {
 	case pan != nil:
@@ -143,7 +183,7 @@ func (r *phxRun) push(v map[string]interface{}) {
 	default:
 		out = "error"
 	}
-	a := map[string]interface{}{"p": "m", "out": out}
+	a := map[string]interface{}{"p": p, "out": out}
 	if err != nil {
 		a["err"] = err.Error()
 	}
@@ -186,6 +226,8 @@ func phxRunScenario(trace *vhTrace, keys *vhKeys, sc vhScenario) {
 			chain.Grow(func(top int) { trace.Emit(r.sc, "ChainGrow", map[string]interface{}{"top": top}, nil) })
 		case "Push":
 			r.push(vhMap(st.A, "v"))
+		case "HeldPush":
+			r.heldPush(st.A)
 		case "Lookup":
 			i := vhInt(st.A, "i", 0)
 			trace.Emit(r.sc, "LookupCall", map[string]interface{}{"p": "m", "i": i}, nil)
